@@ -65,12 +65,21 @@ func parseVersion1(reader *bufio.Reader) (*Header, error) {
 		return nil, ErrCantReadProtocolVersionAndCommand
 	}
 	tokens := strings.Split(line[:len(line)-2], SEPARATOR)
+
+	header := initVersion1()
+
+	// "PROXY UNKNOWN" is sent for unknown or unsupported protocols. The rest
+	// of the line must be ignored and the real connection endpoints are used.
+	if len(tokens) >= 2 && tokens[1] == "UNKNOWN" {
+		header.TransportProtocol = UNSPEC
+		state.ProxyNormalV1Header.Inc(1)
+		return header, nil
+	}
+
 	if len(tokens) < 6 {
 		state.ProxyErrInvalidHeader.Inc(1)
 		return nil, ErrCantReadProtocolVersionAndCommand
 	}
-
-	header := initVersion1()
 
 	// Read address family and protocol
 	switch tokens[1] {
